@@ -191,9 +191,11 @@ fn run_lookup(r: &mut Rng, n: u64) {
     }
 }
 fn run_rel(r: &mut Rng, n: u64) {
-    let names = ["a", "b", "c.js", "d"];
-    let path = |r: &mut Rng| -> String { let k = 1 + r.below(5); let abs = r.below(2) == 0; let sep = if r.below(4) == 0 { "\\" } else { "/" }; let comps: Vec<&str> = (0..k).map(|_| names[r.below(4) as usize]).collect(); format!("{}{}", if abs { "/" } else { "" }, comps.join(sep)) };
-    rel_case("x0", "/foo/bar.js", "/foo/x/y.map"); rel_case("x1", "/a/b/c/d.js", "/a/x/y/z.map"); rel_case("x2", "/a/b.js", "/a");
+    // a small pool, so that shared prefixes of every length occur; with names that are string prefixes of one another (a/ab, bar/bar.map),
+    // case variants (a/A, Lib/lib) and a non-ASCII name: components are compared whole and exactly
+    let names = ["a", "b", "c.js", "d", "ab", "A", "bar", "bar.map", "Lib", "lib", "\u{e9}"];
+    let path = |r: &mut Rng| -> String { let k = 1 + r.below(5); let abs = r.below(2) == 0; let sep = if r.below(4) == 0 { "\\" } else { "/" }; let pool = if r.below(3) == 0 { 11 } else { 6 }; let comps: Vec<&str> = (0..k).map(|_| names[r.below(pool) as usize]).collect(); format!("{}{}", if abs { "/" } else { "" }, comps.join(sep)) };
+    rel_case("x0", "/foo/bar.js", "/foo/x/y.map"); rel_case("x1", "/a/b/c/d.js", "/a/x/y/z.map"); rel_case("x2", "/a/b.js", "/a"); rel_case("x3", "/foo/bar/baz.js", "/foo/barbaz/baz.map"); rel_case("x4", "/static/Lib/app.min.js", "/static/lib/app.min.js.map"); rel_case("x5", "a/a", "ab"); rel_case("x6", "a/a", "A");
     for i in 0..n { let b = path(r); let t = path(r); rel_case(&format!("r{}", i), &b, &t); }
 }
 fn slice_case(id: &str, line: &str, col: u32, span: u32) {
@@ -208,6 +210,25 @@ fn run_slices(r: &mut Rng, n: u64) {
     for i in 0..n { let len = r.below(8); let line: String = (0..len).map(|_| al[r.below(5) as usize]).collect();
         let col = if r.below(25) == 0 { u32::MAX - r.below(3) as u32 } else { r.below(12) as u32 }; let span = if r.below(25) == 0 { u32::MAX - r.below(3) as u32 } else { r.below(8) as u32 };
         slice_case(&format!("s{}", i), &line, col, span); }
+}
+/// C15 over histories of slice requests on ONE view ("in any access order"): every answer is what a fresh view gives
+fn run_slicehist(r: &mut Rng, n: u64) {
+    let al = ['a', '\u{e9}', '\u{1F44C}', 'b', '\u{1D49C}', 'c'];
+    for i in 0..n {
+        let nlines = 1 + r.below(3); let lines: Vec<String> = (0..nlines).map(|_| { let len = r.below(9); (0..len).map(|_| al[r.below(6) as usize]).collect() }).collect();
+        let text = lines.join("\n");
+        let sv = sourcemap::SourceView::new(text.clone().into());
+        let k = 2 + r.below(5); let mut reqs = vec![]; let mut outs = vec![];
+        // requests often stay on one line and move forward by one or two columns (a remembered position would be reused), sometimes jump
+        let (mut l, mut c) = (r.below(nlines) as u32, r.below(4) as u32);
+        for _ in 0..k {
+            let span = r.below(4) as u32;
+            reqs.push(format!("{}:{}:{}", l, c, span));
+            outs.push(match catch_unwind(AssertUnwindSafe(|| sv.get_line_slice(l, c, span).map(|x| format!("={}", hex(x.as_bytes()))).unwrap_or("-".into()))) { Ok(x) => x, Err(_) => "panic".into() });
+            match r.below(6) { 0 => { l = r.below(nlines + 1) as u32; c = r.below(10) as u32; } 1 => { c = c.saturating_sub(1 + r.below(3) as u32); } _ => { c += 1 + r.below(2) as u32; } }
+        }
+        outln!("h{}\tslicehist\t{}\t{}\t{}", i, hex(text.as_bytes()), reqs.join(","), outs.join(","));
+    }
 }
 fn run_lines(r: &mut Rng, n: u64) {
     let al = ['a', '\u{e9}', '\u{1F44C}', '\n', '\r', 'b'];
@@ -253,16 +274,17 @@ fn map_obs(sm: &sourcemap::SourceMap) -> String {
         toks_str(&sm.tokens().map(|t| raw_of(&t)).collect::<Vec<_>>()))
 }
 fn gen_map(r: &mut Rng, sorted_sources: bool) -> sourcemap::SourceMap {
-    let spool = ["a.js", "b.js", "", "/abs/c.js", "http://x/d.js", "/abs/e/f.js", "a.js", "q/\u{e9}.js", "https:g.js", "http:h.js", "/absolute/z.js", "/abs", "http://xy/w.js"];
-    let npool = ["x", "y", "", "fn", "x"];
+    let spool = ["a.js", "b.js", "", "/abs/c.js", "http://x/d.js", "/abs/e/f.js", "a.js", "q/\u{e9}.js", "https:g.js", "http:h.js", "/absolute/z.js", "/abs", "http://xy/w.js",
+        "src/\u{e9}.js", "\u{65e5}\u{672c}\u{8a9e}.js", "app/\u{1f600}.js", "webpack:///./src/a.js?abcd", "lib/x>y~.js", "e.js", "/abs/a.js", "Http://x/d.js", "/work/a/i.js", "/work/b/i.js", "/abs/a.js", "/work/a/i.js"];
+    let npool = ["x", "y", "", "fn", "x", "\u{1f44c}ok", "caf\u{e9}", "a>b?c~"];
     let nsrc = 1 + r.below(4) as usize; let nn = r.below(4) as usize;
     let srcs: Vec<&str> = (0..nsrc).map(|i| if sorted_sources { spool[i] } else { spool[r.below(spool.len() as u64) as usize] }).collect();
     let names: Vec<&str> = (0..nn).map(|_| npool[r.below(npool.len() as u64) as usize]).collect();
     let mut toks = gen_toks(r, nsrc as u32, nn as u32, 10, true); toks.sort_by_key(|t| (t.dl, t.dc));
-    let contents: Vec<Option<std::sync::Arc<str>>> = (0..nsrc).map(|i| match r.below(8) { 0 => Some("".into()), 1..=3 => Some(format!("content{}", i).into()), _ => None }).collect();
+    let contents: Vec<Option<std::sync::Arc<str>>> = (0..nsrc).map(|i| match r.below(9) { 0 => Some("".into()), 1..=3 => Some(format!("content{}", i).into()), 4 => Some(format!("{}x=>y??z~\u{1f44c}\u{e9}", &"ab"[..i % 3]).into()), _ => None }).collect();
     let raw: Vec<sourcemap::RawToken> = toks.iter().map(|t| sourcemap::RawToken { dst_line: t.dl, dst_col: t.dc, src_line: t.sl, src_col: t.sc, src_id: t.src, name_id: t.name, is_range: t.range }).collect();
-    let mut sm = sourcemap::SourceMap::new(if r.below(2) == 0 { Some("out.js".into()) } else { None }, raw, names.iter().map(|s| (*s).into()).collect(), srcs.iter().map(|s| (*s).into()).collect(), if r.below(3) == 0 { None } else { Some(contents) });
-    if r.below(3) == 0 { sm.set_source_root(Some(["", "root", "root/", "webpack:///"][r.below(4) as usize])); }
+    let mut sm = sourcemap::SourceMap::new(match r.below(5) { 0 | 1 => Some("out.js".into()), 2 => Some("\u{1f600}>.js".into()), _ => None }, raw, names.iter().map(|s| (*s).into()).collect(), srcs.iter().map(|s| (*s).into()).collect(), if r.below(3) == 0 { None } else { Some(contents) });
+    if r.below(3) == 0 { sm.set_source_root(Some(["", "root", "root/", "webpack:///", "r\u{e9}\u{1f600}/", "/abs"][r.below(6) as usize])); }
     for i in 0..nsrc as u32 { if r.below(5) == 0 { sm.add_to_ignore_list(i); } }
     sm
 }
@@ -270,7 +292,7 @@ fn run_rewrite(r: &mut Rng, n: u64) {
     for i in 0..n {
         let sm = gen_map(r, false); let input = map_in(&sm);
         let wn = r.below(2) == 0; let wc = r.below(2) == 0;
-        let prefixes: Vec<&str> = match r.below(11) { 0 => vec!["/abs"], 1 => vec!["/abs/", "http://x"], 2 => vec!["~"], 3 => vec!["~", "/abs"], 4 => vec!["http://x", "~", "/abs/e"], 5 => vec!["/abs", "e"], 6 => vec!["/abs/", "c.js", "e/"], _ => vec![] };
+        let prefixes: Vec<&str> = match r.below(11) { 0 => vec!["/abs"], 1 => vec!["/abs/", "http://x"], 2 => vec!["~"], 3 => vec!["~", "/abs"], 4 => vec!["http://x", "~", "/abs/e"], 5 => vec!["/abs", "e"], 6 => vec!["/abs/", "c.js", "e/"], 7 => vec!["/work/a/", "/work/b/", "/abs/"], _ => vec![] };   // 7: different sources that become equal after stripping
         let opts = sourcemap::RewriteOptions { with_names: wn, with_source_contents: wc, strip_prefixes: &prefixes, ..Default::default() };
         let out = match catch_unwind(AssertUnwindSafe(|| sm.rewrite(&opts))) { Ok(Ok(m)) => format!("ok {}", map_obs(&m)), Ok(Err(e)) => format!("err {}", err_name(&e)), Err(_) => "panic".into() };
         outln!("r{}\trewrite\t{}\t{}\t{}\t{}\t{}", i, input, wn as u8, wc as u8, prefixes.iter().map(|p| hex(p.as_bytes())).collect::<Vec<_>>().join(","), out);
@@ -325,7 +347,7 @@ fn run_ram(r: &mut Rng, n: u64) {
             let isb = is_ram_bundle_slice(&v);
             match RamBundle::parse_indexed_from_slice(&v) {
                 Err(_) => format!("err {}", isb),
-                Ok(b) => { let ms: Vec<String> = (0..6).map(|k| match b.get_module(k) { Ok(None) => "none".into(), Ok(Some(m)) => format!("={}", hex(m.data())), Err(_) => "err".to_string() }).collect();
+                Ok(b) => { let ms: Vec<String> = (0..6usize).chain([u32::MAX as usize, 1 << 40, usize::MAX / 8, 1 << 61, usize::MAX - 1, usize::MAX]).map(|k| match b.get_module(k) { Ok(None) => "none".into(), Ok(Some(m)) => format!("={}", hex(m.data())), Err(_) => "err".to_string() }).collect();
                     // the iterator is advanced a bounded number of steps only: a header may declare 2^32-1 modules
                     let it: Vec<String> = b.iter_modules().take(8).map(|x| match x { Ok(m) => format!("{}={}", m.id(), hex(m.data())), Err(_) => "err".into() }).collect();
                     format!("ok {} {} {} {} {}", b.module_count(), b.startup_code().map(|s| hex(s)).unwrap_or("err".into()), ms.join(","), isb, it.join(",")) }
@@ -383,10 +405,14 @@ fn run_hdr(r: &mut Rng, n: u64) {
         br#"{"version":3,"sources":["a"],"names":[],"mappings":"AAAA","x_facebook_sources":[null]}"#, br#"{"file":"x"}"#, br#"[1,2]"#];
     let headers: Vec<&[u8]> = vec![b"", b")]}'\n", b")]}'\r\n", b")]}'\r", b")]}'", b")\n", b"]\r\r\n", b"}garbage)]}\n", b"'\n\n", b")]}\rx\n", b"x)]}\n", b")\r\n\r\n", b")]}'\r\r\n", b"'\r", b"]\n\r\n", b"}{\n",
         b")]}'\r)]}'\n", b")\r]\n", b"]\r}\r\n", b"'\r'\r'\n", b")\r\r", b"}\r)",
-        b")]}'\n)]}'\n", b")\n]\r\n", b"'\r\n'\n'\n", b")]}'\n \n", b"\n", b" \n", b"\n)]}'\n"];
+        b")]}'\n)]}'\n", b")\n]\r\n", b"'\r\n'\n'\n", b")]}'\n \n", b"\n", b" \n", b"\n)]}'\n",
+        // garbage that is not UTF-8 (Latin-1 text, a lone continuation byte, a truncated sequence): the header is skipped byte-wise on every path
+        b")]}'\xff\xfe\n", b"]caf\xe9\r\n", b"}\x80\n", b"'\xe2\x82\n", b")\xf0\x9f\r\n", b"]\xc3\r"];
     for i in 0..n {
         let body = bodies[if r.below(3) == 0 { r.below(bodies.len() as u64) as usize } else { 0 }];
-        let mut doc = headers[r.below(headers.len() as u64) as usize].to_vec(); let cut = [0usize, 0, 0, 1, 7][r.below(5) as usize].min(body.len()); doc.extend_from_slice(&body[..body.len() - cut]);
+        let mut doc = headers[r.below(headers.len() as u64) as usize].to_vec();
+        if r.below(12) == 0 && doc.ends_with(b"\n") && doc.len() > 1 && !doc[..doc.len() - 1].contains(&b'\n') && !doc.contains(&b'\r') { let nl = doc.pop().unwrap(); doc.extend(std::iter::repeat(b'j').take(8190 + r.below(5) as usize)); doc.push(nl); }   // a header line of about 8 KiB
+        let cut = [0usize, 0, 0, 1, 7][r.below(5) as usize].min(body.len()); doc.extend_from_slice(&body[..body.len() - cut]);
         // reads: mostly short; sometimes a first read that ends exactly after the header line, or one big read
         let hdr_len = doc.iter().position(|&b| b == b'\n').map(|k| k + 1).unwrap_or(1);
         let sizes: Vec<usize> = match r.below(6) { 0 => vec![hdr_len.max(1), 1 + r.below(7) as usize], 1 => vec![doc.len().max(1)], 2 => vec![1], _ => (0..1 + r.below(3)).map(|_| 1 + r.below(7) as usize).collect() };
@@ -519,7 +545,8 @@ fn run_decode(r: &mut Rng, n: u64, with_faults: bool) {
         let nsrc = if explicit { 1 } else { r.below(4) as usize }; let nn = if explicit { 0 } else { r.below(4) as usize };
         // sources with nulls, names with numbers
         let sources: Vec<Option<&str>> = (0..nsrc).map(|_| if r.below(6) == 0 { None } else { Some(spool[r.below(spool.len() as u64) as usize]) }).collect();
-        let names: Vec<Result<String, u32>> = (0..nn).map(|k| if r.below(5) == 0 { Err(r.below(1000) as u32) } else { Ok(format!("n{}", k)) }).collect();
+        // a name that is a JSON number reads as its decimal text: small integers, the ends of i64 / u64, simple fractions
+        let names: Vec<Result<String, String>> = (0..nn).map(|k| if r.below(5) == 0 { Err(if r.below(2) == 0 { r.below(1000).to_string() } else { ["1.5", "-0.25", "9223372036854775807", "9223372036854775808", "18446744073709551615", "-9223372036854775808", "0.5"][r.below(7) as usize].to_string() }) } else { Ok(if k % 3 == 2 { format!("n{}\u{1f44c}", k) } else { format!("n{}", k) }) }).collect();
         // abstract document: lines of items; absolute fields
         let nlines = 1 + r.below(4); let mut mappings = String::new();
         let (mut ps, mut pl, mut pc, mut pn) = (0i64, 0i64, 0i64, 0i64);
@@ -580,7 +607,7 @@ fn run_decode(r: &mut Rng, n: u64, with_faults: bool) {
         let contents: Option<Vec<Option<String>>> = if r.below(2) == 0 { Some((0..(nsrc + r.below(2) as usize)).map(|k| if r.below(3) == 0 { None } else { Some(format!("c{}", k)) }).collect()) } else { None };
         if let Some(c) = &contents { keys.push(("sourcesContent", serde_json::json!(c))); }
         let omit_names = nn == 0 && r.below(2) == 0;
-        if !omit_names { keys.push(("names", serde_json::Value::Array(names.iter().map(|x| match x { Ok(s) => serde_json::json!(s), Err(v) => serde_json::json!(v) }).collect()))); }
+        if !omit_names { keys.push(("names", serde_json::Value::Array(names.iter().map(|x| match x { Ok(s) => serde_json::json!(s), Err(v) => serde_json::from_str::<serde_json::Value>(v).unwrap() }).collect()))); }
         let rm: Option<String> = match r.below(6) { 0 => Some("".into()), 1 => Some("B;;C".into()), 2 => Some("!".into()), _ => None };
         if let Some(x) = &rm { keys.push(("rangeMappings", serde_json::json!(x))); }
         let omit_mappings = fault == 12; if !omit_mappings { keys.push(("mappings", serde_json::json!(mappings))); }
@@ -605,6 +632,28 @@ fn run_decode(r: &mut Rng, n: u64, with_faults: bool) {
                 }
                 format!("ok {}#{}", map_obs(&sm), sm.get_debug_id().map(|d| d.to_string()).unwrap_or("-".into())) }
             Ok(Ok(_)) => "ok other-kind".into(), Ok(Err(e)) => format!("err {}", err_name(&e)), Err(_) => "panic".into() };
+        // the reader entry points on the same document, read in small or large chunks, with and without a junk header that arrives in
+        // its own reads (or is longer than any buffer): same outcome as the slice entry point
+        let out = { let short = |x: Result<sourcemap::DecodedMap, sourcemap::Error>| match x { Ok(sourcemap::DecodedMap::Regular(m)) => format!("ok {}#{}", map_obs(&m), m.get_debug_id().map(|d| d.to_string()).unwrap_or("-".into())), Ok(_) => "ok other-kind".into(), Err(e) => format!("err {}", err_name(&e)) };
+            let header: Vec<u8> = match r.below(5) { 0 => b")]}'\n".to_vec(), 1 => { let mut h = b")]}' ".to_vec(); h.extend(std::iter::repeat(b'x').take(9000)); h.push(b'\n'); h } 2 => b"]garbage \xff\xfe\r\n".to_vec(), _ => vec![] };
+            let mut with_header = header.clone(); with_header.extend(&text);
+            let sizes = match r.below(4) { 0 => vec![1], 1 => vec![header.len().max(1), 7], 2 => vec![5, 3, 8192], _ => vec![1 << 20] };
+            let via_reader = match catch_unwind(AssertUnwindSafe(|| sourcemap::decode(Chunked { data: &with_header, pos: 0, sizes: sizes.clone(), k: 0 }))) { Ok(x) => short(x), Err(_) => "panic".into() };
+            let via_slice = if header.is_empty() { out.clone() } else { match catch_unwind(AssertUnwindSafe(|| sourcemap::decode_slice(&with_header))) { Ok(x) => short(x), Err(_) => "panic".into() } };
+            let via_sm = match catch_unwind(AssertUnwindSafe(|| sourcemap::SourceMap::from_reader(Chunked { data: &with_header, pos: 0, sizes: sizes.clone(), k: 0 }))) { Ok(Ok(m)) => short(Ok(sourcemap::DecodedMap::Regular(m))), Ok(Err(e)) => format!("err {}", err_name(&e)), Err(_) => "panic".into() };
+            // the same document as the embedded map of an index section (with or without a `url` beside it, also one level deeper): the
+            // index decodes exactly when the document does, and fails with the document's error
+            let wrap_differs = if r.below(3) == 0 { let docv: serde_json::Value = serde_json::from_slice(&text).unwrap();
+                    let sec = |inner: serde_json::Value, with_url: bool| { let mut s = serde_json::json!({"offset": {"line": 0, "column": 0}, "map": inner}); if with_url { s.as_object_mut().unwrap().insert("url".into(), serde_json::json!("s.map")); } serde_json::json!({"version": 3, "sections": [s]}) };
+                    let with_url = r.below(2) == 0; let w = if r.below(3) == 0 { sec(sec(docv, with_url), r.below(2) == 0) } else { sec(docv, with_url) };
+                    let wout = match catch_unwind(AssertUnwindSafe(|| sourcemap::decode_slice(&serde_json::to_vec(&w).unwrap()))) {
+                        Ok(Ok(sourcemap::DecodedMap::Index(ix))) => { fn all_there(ix: &sourcemap::SourceMapIndex) -> bool { ix.sections().all(|s| match s.get_sourcemap() { Some(sourcemap::DecodedMap::Index(i)) => all_there(i), Some(_) => true, None => false }) }
+                            if all_there(&ix) { "ok".to_string() } else { "ok-but-a-section-lost-its-map".to_string() } }
+                        Ok(Ok(_)) => "ok-not-an-index".into(), Ok(Err(e)) => format!("err {}", err_name(&e)), Err(_) => "panic".into() };
+                    let want = if out.starts_with("ok") { "ok".to_string() } else { out.clone() };
+                    if wout != want { Some(format!("as an index section (url beside map: {}) [{}]", with_url, wout)) } else { None } } else { None };
+            if let Some(w) = wrap_differs { format!("entry-points-differ slice=[{}] {}", out, w) } else
+            if via_reader != out || via_slice != out || (via_sm != out && out != "ok other-kind") { format!("entry-points-differ slice=[{}] reader(header {} bytes, reads {:?})=[{}] slice+header=[{}] SourceMap::from_reader=[{}]", out, header.len(), sizes, via_reader, via_slice, via_sm) } else { out } };
         let lst = |v: Vec<String>| format!("L{}", v.join(","));
         outln!("r{}\tdecode\t{}\t{}\t{}\t{}\t{}\t{}\t{}\t{}\t{}\t{}\t{}\t{}\t{}",
             i, match &file { None => "-".into(), Some(serde_json::Value::String(s)) => format!("={}", hex(s.as_bytes())), Some(_) => "n".to_string() },
@@ -663,14 +712,14 @@ fn run_hermes(r: &mut Rng, n: u64) {
                 k => {
                     // names differ from source to source; an adjacent source sometimes has the very same mappings (same entries, same string)
                     let reuse = prev_entries.is_some() && r.below(4) == 0;
-                    let nnames = if reuse { 5 } else { 1 + r.below(4) as usize }; let names: Vec<String> = (0..nnames).map(|x| format!("f{}_{}", fbi, x)).collect();
+                    let nnames = if reuse { 5 } else if r.below(9) == 0 { 0 } else { 1 + r.below(4) as usize }; let names: Vec<String> = (0..nnames).map(|x| format!("f{}_{}", fbi, x)).collect();
                     let messy = !reuse && r.below(10) == 0;
                     let mut entries: Vec<(u32, u32, u32)> = vec![]; let (mut l, mut c) = (1u32, 0u32);
                     if reuse { entries = prev_entries.clone().unwrap(); } else {
                     for e in 0..r.below(7) {
                         if e > 0 || r.below(2) == 0 { if r.below(3) == 0 { l += 1 + r.below(2) as u32; c = r.below(4) as u32; } else { c += 1 + r.below(4) as u32; } }
                         if messy && r.below(2) == 0 { c = c.saturating_sub(2); }
-                        entries.push((l, c, if r.below(8) == 0 { nnames as u32 + 1 } else { r.below(nnames as u64) as u32 }));
+                        entries.push((l, c, if nnames == 0 { r.below(2) as u32 } else if r.below(8) == 0 { nnames as u32 + r.below(2) as u32 } else { r.below(nnames as u64) as u32 }));
                     } }
                     if !messy { prev_entries = Some(entries.clone()); }
                     // own renderer: ';' between lines (line delta also written explicitly in field 3), ',' between segments
@@ -791,7 +840,12 @@ fn run_crash(r: &mut Rng, n: u64) {
                     m.insert("mappings".into(), serde_json::json!(mp)); }
                 if r.below(2) == 0 { m.insert("sourcesContent".into(), serde_json::json!([null, "c", "d", "e"])); }
                 if r.below(3) == 0 { m.insert("rangeMappings".into(), serde_json::json!(["B", "", "/;;B"][r.below(3) as usize])); }
-                if r.below(3) == 0 { m.insert("x_facebook_sources".into(), serde_json::json!([[{"names": ["f", "g"], "mappings": "AAA,CC;EAE"}], null, []])); }
+                if r.below(3) == 0 { m.insert("x_facebook_sources".into(), match r.below(6) {
+                    0 => serde_json::json!([[{"names": [], "mappings": "A"}], [{"names": [], "mappings": "A,C;E"}], [{"names": [], "mappings": ""}]]),          // no names at all, column-only segments
+                    1 => serde_json::json!([[{"names": ["f"], "mappings": "A,C,E;;G"}], [{"names": ["f"], "mappings": "AC"}], [{"names": ["f"], "mappings": "ADA"}]]),   // index 1 of 1, index -1
+                    2 => serde_json::json!([[{"names": ["f", "g"], "mappings": "AAA,CC;EAE"}], [{"names": ["h"], "mappings": "AAgggggggggggggggB"}], [{"names": ["h"], "mappings": "A!"}]]),
+                    3 => serde_json::json!([null, [], [{"names": ["f"], "mappings": "AAA"}, {"names": [], "mappings": "!"}]]),
+                    _ => serde_json::json!([[{"names": ["f", "g"], "mappings": "AAA,CC;EAE"}], null, []]) }); }
                 // … with zero to two keys replaced by hostile values
                 for _ in 0..r.below(3) { let k = ["version", "file", "sources", "sourceRoot", "sourcesContent", "names", "mappings", "rangeMappings", "ignoreList", "debug_id", "debugId", "x_facebook_sources", "x_facebook_offsets", "x_metro_module_paths"][r.below(14) as usize]; m.insert(k.into(), v(r)); }
                 if r.below(3) == 0 { let secs: Vec<serde_json::Value> = (0..r.below(4)).map(|s| {
@@ -843,7 +897,14 @@ fn run_keys(r: &mut Rng, n: u64) {
         let text = String::from_utf8(out.clone()).unwrap();
         let mut keys: Vec<(usize, String)> = v.as_object().unwrap().iter().map(|(k, val)| (text.find(&format!("\"{}\":", k)).unwrap_or(usize::MAX), format!("{}{}", k, if val.is_null() { ":null" } else { "" }))).collect();
         keys.sort();
-        outln!("k{}\tkeys\t{}\t{}\t{}", i, map_in(&sm), if dbg { 1 } else { 0 }, keys.into_iter().map(|x| x.1).collect::<Vec<_>>().join(","));
+        let mut keys: Vec<String> = keys.into_iter().map(|x| x.1).collect();
+        // the other writer, to_data_url: what follows the preamble is the STANDARD base64 (RFC 4648 section 4, padded) of exactly the bytes
+        // to_writer produces -- encoded here by an independent encoder; a mismatch is shown as an extra pseudo key
+        let url = sm.to_data_url().unwrap();
+        match url.split_once(',') { Some((pre, payload)) => { if payload != own_b64(&out) { keys.push("~data-url-payload-is-not-the-standard-base64-of-the-written-bytes".into()); }
+                if !pre.starts_with("data:application/json") || !pre.ends_with(";base64") { keys.push("~data-url-preamble".into()); } }
+            None => keys.push("~data-url-without-comma".into()) }
+        outln!("k{}\tkeys\t{}\t{}\t{}", i, map_in(&sm), if dbg { 1 } else { 0 }, keys.join(","));
     }
 }
 
@@ -937,14 +998,47 @@ fn gen_index(r: &mut Rng, depth: u32) -> sourcemap::SourceMapIndex {
         sourcemap::SourceMapIndex::new_ram_bundle_compatible(file, secs, fbo, mmp) }
     else { sourcemap::SourceMapIndex::new(file, secs) }
 }
+/// a short history of in-place edits on a map: source root, source names, contents (C13's setters), including the scripted
+/// history "every source absolute, then a root, then a relative name" in which a stale cache of joined names would show
+fn edit_history(sm: &mut sourcemap::SourceMap, r: &mut Rng) {
+    let abs = ["/abs/k.js", "http://h/k.js", "https://h/k.js", "/k.js"]; let rel = ["k.js", "dir/k.js", "", "../k.js", "\u{e9}/k.js"]; let roots = ["root", "root/", "", "/abs", "http://h/r/"];
+    let n = sm.get_source_count();
+    if n > 0 && r.below(4) == 0 {
+        for i in 0..n { sm.set_source(i, abs[(i as usize + r.below(4) as usize) % 4]); }
+        sm.set_source_root(Some(roots[r.below(2) as usize]));
+        sm.set_source(r.below(n as u64) as u32, rel[r.below(5) as usize]);
+        return;
+    }
+    for _ in 0..(1 + r.below(4)) {
+        match r.below(4) {
+            0 => { let v = roots[r.below(5) as usize]; if r.below(6) == 0 { sm.set_source_root(None::<&str>); } else { sm.set_source_root(Some(v)); } }
+            1 if n > 0 => { let v = if r.below(2) == 0 { abs[r.below(4) as usize] } else { rel[r.below(5) as usize] }; sm.set_source(r.below(n as u64) as u32, v); }
+            2 if n > 0 => { let c = if r.below(3) == 0 { None } else { Some("edited \u{1f44c}") }; sm.set_source_contents(r.below(n as u64) as u32, c); }
+            _ => { if n > 0 { sm.add_to_ignore_list(r.below(n as u64) as u32); } }
+        }
+    }
+}
 fn run_roundtrip(r: &mut Rng, n: u64) {
     for i in 0..n {
         let kind = ["regular", "regular", "index", "hermes"][r.below(4) as usize];
         let res = catch_unwind(AssertUnwindSafe(|| {
             let dm: sourcemap::DecodedMap = match kind {
-                "regular" => { let mut sm = gen_map(r, false); if r.below(3) == 0 { sm.set_debug_id(Some("00000000-0000-0000-0000-000000000007".parse().unwrap())); } sourcemap::DecodedMap::Regular(sm) }
-                "index" => sourcemap::DecodedMap::Index(gen_index(r, 2)),
-                _ => sourcemap::decode_slice(&gen_hermes_doc(r)).unwrap() };
+                "regular" => { let mut sm = gen_map(r, false);
+                    // debug ids with and without an appendix (the appendix is part of the id)
+                    if r.below(3) == 0 { sm.set_debug_id(Some(["00000000-0000-0000-0000-000000000007", "00000000-0000-0000-0000-000000000007-2a", "12345678-9abc-def0-1234-56789abcdef0-ffffffff"][r.below(3) as usize].parse().unwrap())); }
+                    // the map is not necessarily fresh: a history of in-place edits precedes the round trip (C01 speaks of every map, however it was reached)
+                    if r.below(3) == 0 { edit_history(&mut sm, r); }
+                    if r.below(8) == 0 { sm = sm.rewrite(&sourcemap::RewriteOptions::default()).unwrap(); }
+                    sourcemap::DecodedMap::Regular(sm) }
+                "index" => { let mut ix = gen_index(r, 2);
+                    // sections edited in place: a URL added to an embedded section, an embedded map replaced or removed
+                    if ix.get_section_count() > 0 && r.below(3) == 0 { let k = r.below(ix.get_section_count() as u64) as u32;
+                        match r.below(3) { 0 => ix.get_section_mut(k).unwrap().set_url(Some("late.map")), 1 => ix.get_section_mut(k).unwrap().set_sourcemap(Some(sourcemap::DecodedMap::Regular(gen_map(r, false)))), _ => { if ix.get_section(k).unwrap().get_url().is_some() { ix.get_section_mut(k).unwrap().set_sourcemap(None); } } } }
+                    sourcemap::DecodedMap::Index(ix) }
+                _ => { let dm = sourcemap::decode_slice(&gen_hermes_doc(r)).unwrap();
+                    // a Hermes map that went through rewrite (which may drop and reorder sources) before it is written
+                    match dm { sourcemap::DecodedMap::Hermes(h) if r.below(2) == 0 => { let opts = if r.below(2) == 0 { sourcemap::RewriteOptions::default() } else { sourcemap::RewriteOptions { with_names: false, strip_prefixes: &["/abs"], ..Default::default() } };
+                            sourcemap::DecodedMap::Hermes(h.rewrite(&opts).unwrap()) } d => d } } };
             let small = |d: &sourcemap::DecodedMap| -> bool { match d { sourcemap::DecodedMap::Regular(m) => m.tokens().all(|t| t.get_dst_line() < 100_000), sourcemap::DecodedMap::Hermes(m) => m.tokens().all(|t| t.get_dst_line() < 100_000), _ => true } };
             fn all_small(d: &sourcemap::DecodedMap, small: &dyn Fn(&sourcemap::DecodedMap) -> bool) -> bool { match d { sourcemap::DecodedMap::Index(ix) => ix.sections().all(|s| s.get_sourcemap().map(|m| all_small(m, small)).unwrap_or(true)), m => small(m) } }
             if !all_small(&dm, &small) { return None; }
@@ -1243,6 +1337,7 @@ fn main() {
         "rel" => run_rel(&mut r, n),
         "lines" => run_lines(&mut r, n),
         "slices" => run_slices(&mut r, n),
+        "slicehist" => run_slicehist(&mut r, n),
         "adjust" => run_adjust(&mut r, n),
         "rewrite" => run_rewrite(&mut r, n),
         "index" => run_index(&mut r, n),
